@@ -34,9 +34,12 @@ theories/Proofs/ExprLemmas.vos theories/Proofs/ExprLemmas.vok theories/Proofs/Ex
 theories/Proofs/SimBasics.vo theories/Proofs/SimBasics.glob theories/Proofs/SimBasics.v.beautified theories/Proofs/SimBasics.required_vo: theories/Proofs/SimBasics.v theories/Spec/SimSpec.vo
 theories/Proofs/SimBasics.vio: theories/Proofs/SimBasics.v theories/Spec/SimSpec.vio
 theories/Proofs/SimBasics.vos theories/Proofs/SimBasics.vok theories/Proofs/SimBasics.required_vos: theories/Proofs/SimBasics.v theories/Spec/SimSpec.vos
-theories/Proofs/SimExamples.vo theories/Proofs/SimExamples.glob theories/Proofs/SimExamples.v.beautified theories/Proofs/SimExamples.required_vo: theories/Proofs/SimExamples.v theories/Model/Sim.vo
-theories/Proofs/SimExamples.vio: theories/Proofs/SimExamples.v theories/Model/Sim.vio
-theories/Proofs/SimExamples.vos theories/Proofs/SimExamples.vok theories/Proofs/SimExamples.required_vos: theories/Proofs/SimExamples.v theories/Model/Sim.vos
+theories/Proofs/SimCanonProofs.vo theories/Proofs/SimCanonProofs.glob theories/Proofs/SimCanonProofs.v.beautified theories/Proofs/SimCanonProofs.required_vo: theories/Proofs/SimCanonProofs.v theories/Model/Sim.vo theories/Proofs/SimBasics.vo theories/Proofs/SimStoreProofs.vo theories/Proofs/SimProofs.vo theories/Proofs/BVLemmas.vo theories/Proofs/EvalProofs.vo
+theories/Proofs/SimCanonProofs.vio: theories/Proofs/SimCanonProofs.v theories/Model/Sim.vio theories/Proofs/SimBasics.vio theories/Proofs/SimStoreProofs.vio theories/Proofs/SimProofs.vio theories/Proofs/BVLemmas.vio theories/Proofs/EvalProofs.vio
+theories/Proofs/SimCanonProofs.vos theories/Proofs/SimCanonProofs.vok theories/Proofs/SimCanonProofs.required_vos: theories/Proofs/SimCanonProofs.v theories/Model/Sim.vos theories/Proofs/SimBasics.vos theories/Proofs/SimStoreProofs.vos theories/Proofs/SimProofs.vos theories/Proofs/BVLemmas.vos theories/Proofs/EvalProofs.vos
+theories/Proofs/SimExamples.vo theories/Proofs/SimExamples.glob theories/Proofs/SimExamples.v.beautified theories/Proofs/SimExamples.required_vo: theories/Proofs/SimExamples.v theories/Model/Sim.vo theories/Proofs/BVLemmas.vo theories/Proofs/SimCanonProofs.vo
+theories/Proofs/SimExamples.vio: theories/Proofs/SimExamples.v theories/Model/Sim.vio theories/Proofs/BVLemmas.vio theories/Proofs/SimCanonProofs.vio
+theories/Proofs/SimExamples.vos theories/Proofs/SimExamples.vok theories/Proofs/SimExamples.required_vos: theories/Proofs/SimExamples.v theories/Model/Sim.vos theories/Proofs/BVLemmas.vos theories/Proofs/SimCanonProofs.vos
 theories/Proofs/SimInitProofs.vo theories/Proofs/SimInitProofs.glob theories/Proofs/SimInitProofs.v.beautified theories/Proofs/SimInitProofs.required_vo: theories/Proofs/SimInitProofs.v theories/Model/Sim.vo theories/Proofs/SimBasics.vo theories/Proofs/SimStoreProofs.vo theories/Proofs/SimProofs.vo
 theories/Proofs/SimInitProofs.vio: theories/Proofs/SimInitProofs.v theories/Model/Sim.vio theories/Proofs/SimBasics.vio theories/Proofs/SimStoreProofs.vio theories/Proofs/SimProofs.vio
 theories/Proofs/SimInitProofs.vos theories/Proofs/SimInitProofs.vok theories/Proofs/SimInitProofs.required_vos: theories/Proofs/SimInitProofs.v theories/Model/Sim.vos theories/Proofs/SimBasics.vos theories/Proofs/SimStoreProofs.vos theories/Proofs/SimProofs.vos
@@ -52,6 +55,6 @@ theories/Proofs/SimStoreProofs.vos theories/Proofs/SimStoreProofs.vok theories/P
 theories/Props/C06.vo theories/Props/C06.glob theories/Props/C06.v.beautified theories/Props/C06.required_vo: theories/Props/C06.v theories/Model/EvalImpl.vo theories/Proofs/EvalProofs.vo theories/Proofs/EvalImplProofs.vo
 theories/Props/C06.vio: theories/Props/C06.v theories/Model/EvalImpl.vio theories/Proofs/EvalProofs.vio theories/Proofs/EvalImplProofs.vio
 theories/Props/C06.vos theories/Props/C06.vok theories/Props/C06.required_vos: theories/Props/C06.v theories/Model/EvalImpl.vos theories/Proofs/EvalProofs.vos theories/Proofs/EvalImplProofs.vos
-theories/Props/C07.vo theories/Props/C07.glob theories/Props/C07.v.beautified theories/Props/C07.required_vo: theories/Props/C07.v theories/Model/Sim.vo theories/Proofs/SimBasics.vo theories/Proofs/SimStoreProofs.vo theories/Proofs/SimProofs.vo theories/Proofs/SimInitProofs.vo theories/Proofs/SimReplayProofs.vo theories/Proofs/SimExamples.vo
-theories/Props/C07.vio: theories/Props/C07.v theories/Model/Sim.vio theories/Proofs/SimBasics.vio theories/Proofs/SimStoreProofs.vio theories/Proofs/SimProofs.vio theories/Proofs/SimInitProofs.vio theories/Proofs/SimReplayProofs.vio theories/Proofs/SimExamples.vio
-theories/Props/C07.vos theories/Props/C07.vok theories/Props/C07.required_vos: theories/Props/C07.v theories/Model/Sim.vos theories/Proofs/SimBasics.vos theories/Proofs/SimStoreProofs.vos theories/Proofs/SimProofs.vos theories/Proofs/SimInitProofs.vos theories/Proofs/SimReplayProofs.vos theories/Proofs/SimExamples.vos
+theories/Props/C07.vo theories/Props/C07.glob theories/Props/C07.v.beautified theories/Props/C07.required_vo: theories/Props/C07.v theories/Model/Sim.vo theories/Proofs/SimBasics.vo theories/Proofs/SimStoreProofs.vo theories/Proofs/SimProofs.vo theories/Proofs/SimInitProofs.vo theories/Proofs/SimReplayProofs.vo theories/Proofs/SimCanonProofs.vo theories/Proofs/SimExamples.vo
+theories/Props/C07.vio: theories/Props/C07.v theories/Model/Sim.vio theories/Proofs/SimBasics.vio theories/Proofs/SimStoreProofs.vio theories/Proofs/SimProofs.vio theories/Proofs/SimInitProofs.vio theories/Proofs/SimReplayProofs.vio theories/Proofs/SimCanonProofs.vio theories/Proofs/SimExamples.vio
+theories/Props/C07.vos theories/Props/C07.vok theories/Props/C07.required_vos: theories/Props/C07.v theories/Model/Sim.vos theories/Proofs/SimBasics.vos theories/Proofs/SimStoreProofs.vos theories/Proofs/SimProofs.vos theories/Proofs/SimInitProofs.vos theories/Proofs/SimReplayProofs.vos theories/Proofs/SimCanonProofs.vos theories/Proofs/SimExamples.vos
